@@ -6,11 +6,24 @@ for d in sorted(glob.glob(os.path.join(os.path.dirname(os.path.dirname(os.path.a
     m = json.load(open(d))
     g = m['godsim'][m['property']]
     first = m.get('first_result_on_baseline_commit', 'detected' if m.get('wave') == 1 and m['seed_id'] not in ('C18-A', 'C11-B') else 'missed' if m.get('wave') == 1 else '?')
-    rows.append((m['seed_id'], m['property'], m.get('wave', '?'), m.get('needs_to_manifest', '').split(':')[0], first,
-                 'detected' if g['exit'] == 1 else 'MISSED', ', '.join(g['oracles'][:3]), m.get('strengthening_that_caught_it', '')))
+    now = 'detected' if g['exit'] == 1 else 'not detected'
+    orc = ', '.join(g['oracles'][:3])
+    note = m.get('strengthening_that_caught_it', '')
+    if g['exit'] != 1:
+        others = [p for p, r in m['godsim'].items() if p != m['property'] and r['exit'] == 1]
+        if others:
+            now = 'detected by ' + '/'.join(others)
+            orc = ', '.join(m['godsim'][others[0]]['oracles'][:3])
+            note = 'owned by ' + '/'.join(others) + ': outside the named property\'s quantifier'
+        elif 'judgement' in m:
+            now = 'out of scope'
+            note = m['judgement'].split(';')[0]
+    rows.append((m['seed_id'], m['property'], m.get('wave', '?'), m.get('needs_to_manifest', '').split(':')[0], first, now, orc, note))
 print('| id | wave | change (see seeded/<id>/notes.md) | first run | now | oracle(s) that fire | strengthening that caught it |')
 print('|---|---|---|---|---|---|---|')
 for r in rows:
     print(f'| {r[0]} | {r[2]} | {r[3]} | {r[4]} | {r[5]} | {r[6]} | {r[7]} |')
 n = len(rows); d1 = sum(1 for r in rows if r[4] == 'detected'); d2 = sum(1 for r in rows if r[5] == 'detected')
-print(f'\n{n} changes; {d1} detected by the checks as they stood when the change arrived, {d2} detected now.')
+d3 = sum(1 for r in rows if r[5].startswith('detected by')); d4 = sum(1 for r in rows if r[5] == 'out of scope'); d5 = sum(1 for r in rows if r[5] == 'not detected')
+print(f'\n{n} changes; {d1} detected by the owning check as it stood when the change arrived; now: {d2} detected by the owning check, '
+      f'{d3} detected by the check of the property that actually owns the behaviour, {d4} judged outside the properties as read, {d5} not detected.')
